@@ -74,28 +74,75 @@ def _func(tree, *path):
     return node
 
 
+def _assigned_anywhere(tree, name):
+    """the values assigned to the plain name `name` anywhere in the file (module level, class level, inside any function)"""
+    vals = []
+    for n in ast.walk(tree):
+        if isinstance(n, ast.Assign) and len(n.targets) == 1 and getattr(n.targets[0], 'id', None) == name:
+            vals.append(n.value)
+        elif isinstance(n, ast.AnnAssign) and getattr(n.target, 'id', None) == name and n.value is not None:
+            vals.append(n.value)
+    return vals
+
+
 def ast_literals():
-    """Literals inside function bodies that are *data* (lists/dicts), found structurally."""
-    out = {}
+    """Tables that live inside function bodies (or wherever a refactoring moved them): a live class / module attribute of that name is used when
+    there is one, otherwise the assignment(s) to that name anywhere in the file (they must agree).  A table that cannot be found is reported
+    under 'missing' (the properties that rest on it are then not shown to hold; the others are not touched)."""
+    out = {'missing': []}
     p = os.path.join(REPO, 'src', 'ssh_audit')
-    # KEX_TO_DHGROUP keys (hostkeytest.run), GEX_ALGS keys (gextest.run)
-    tree = ast.parse(open(os.path.join(p, 'hostkeytest.py')).read())
-    for n in ast.walk(_func(tree, 'HostKeyTest', 'run')):
-        if isinstance(n, ast.Assign) and getattr(n.targets[0], 'id', None) == 'KEX_TO_DHGROUP':
-            out['kex_to_dhgroup_keys'] = [k.value for k in n.value.keys]
-    tree = ast.parse(open(os.path.join(p, 'gextest.py')).read())
-    for n in ast.walk(_func(tree, 'GEXTest', 'run')):
-        if isinstance(n, ast.Assign) and getattr(n.targets[0], 'id', None) == 'GEX_ALGS':
-            out['gex_algs'] = [k.value for k in n.value.keys]
-    # ranked_return_codes (main), default send_kexinit lists
-    tree = ast.parse(open(os.path.join(p, 'ssh_audit.py')).read())
-    for n in ast.walk(_func(tree, 'main')):
-        if isinstance(n, ast.Assign) and getattr(n.targets[0], 'id', None) == 'ranked_return_codes':
-            out['ranked_return_codes'] = [e.attr for e in n.value.elts]
-    tree = ast.parse(open(os.path.join(p, 'ssh_socket.py')).read())
-    f = _func(tree, 'SSH_Socket', 'send_kexinit')
-    names = [a.arg for a in f.args.args][1:]
-    out['default_kexinit'] = {nm: [e.value for e in d.elts] for nm, d in zip(names, f.args.defaults)}
+
+    def keys_of(fname, name, live_owner):
+        live = getattr(live_owner, name, None) if live_owner is not None else None
+        if isinstance(live, dict):
+            return list(live.keys())
+        found = []
+        for v in _assigned_anywhere(ast.parse(open(os.path.join(p, fname)).read()), name):
+            if isinstance(v, ast.Dict) and all(isinstance(k, ast.Constant) and isinstance(k.value, str) for k in v.keys):
+                found.append([k.value for k in v.keys])
+        if found and all(f == found[0] for f in found):
+            return found[0]
+        return None
+    from ssh_audit.hostkeytest import HostKeyTest
+    from ssh_audit.gextest import GEXTest
+    from ssh_audit.ssh_socket import SSH_Socket
+    import ssh_audit.ssh_audit as sa
+    from ssh_audit import exitcodes
+    for key, fname, name, owner in (('kex_to_dhgroup_keys', 'hostkeytest.py', 'KEX_TO_DHGROUP', HostKeyTest), ('gex_algs', 'gextest.py', 'GEX_ALGS', GEXTest)):
+        v = keys_of(fname, name, owner)
+        if v is None:
+            out['missing'].append(key)
+            v = []
+        out[key] = v
+    # ranked_return_codes: a list of exitcodes.NAME (in main(), or wherever it was moved to); a live module-level list of the values also serves
+    rr = None
+    live = getattr(sa, 'ranked_return_codes', getattr(sa, 'RANKED_RETURN_CODES', getattr(exitcodes, 'RANKED_RETURN_CODES', None)))
+    names_by_value = {getattr(exitcodes, k): k for k in ('GOOD', 'WARNING', 'FAILURE', 'CONNECTION_ERROR', 'UNKNOWN_ERROR')}
+    if isinstance(live, (list, tuple)) and all(x in names_by_value for x in live):
+        rr = [names_by_value[x] for x in live]
+    else:
+        found = []
+        for fname in ('ssh_audit.py', 'exitcodes.py'):
+            for nm in ('ranked_return_codes', 'RANKED_RETURN_CODES'):
+                for v in _assigned_anywhere(ast.parse(open(os.path.join(p, fname)).read()), nm):
+                    if isinstance(v, (ast.List, ast.Tuple)) and all(isinstance(e, (ast.Attribute, ast.Name)) for e in v.elts):
+                        found.append([e.attr if isinstance(e, ast.Attribute) else e.id for e in v.elts])
+        if found and all(f == found[0] for f in found):
+            rr = found[0]
+    if rr is None:
+        out['missing'].append('ranked_return_codes')
+        rr = []
+    out['ranked_return_codes'] = rr
+    # the default lists of send_kexinit: the defaults of the live function (whatever the shape of the source)
+    import inspect
+    try:
+        sig = inspect.signature(SSH_Socket.send_kexinit)
+        out['default_kexinit'] = {nm: list(prm.default) for nm, prm in sig.parameters.items() if nm != 'self' and isinstance(prm.default, (list, tuple))}
+        if not out['default_kexinit']:
+            raise ValueError
+    except Exception:
+        out['missing'].append('default_kexinit')
+        out['default_kexinit'] = {}
     return out
 
 
@@ -262,7 +309,7 @@ def main():
     os.makedirs(GEN, exist_ok=True)
     changed = [n for n, c in files.items() if write_if_changed(os.path.join(GEN, n), c)]
     write_if_changed(os.path.join(GEN, 'tables.json'), json.dumps(canonical(t), sort_keys=True))
-    print(json.dumps({'generated': sorted(files), 'changed': changed}))
+    print(json.dumps({'generated': sorted(files), 'changed': changed, 'missing': t.get('missing', [])}))
 
 
 if __name__ == '__main__':
